@@ -10,9 +10,21 @@ Definition sig_fitsb (inf st : sig) : bool :=
 Definition stored_okb (sg : sig) (f : node) : bool :=
   match vnode 0 f (vs0, vs0) with Some e0 => sig_fitsb (env_sig e0) sg | None => false end.
 
-Definition unprovedb (mk : modk) : bool := match mk with MBy => true | _ => false end.
+Definition stored_exactb (sg : sig) (f : node) : bool :=
+  match vnode 0 f (vs0, vs0) with Some e0 => sig_eqb (env_sig e0) sg | None => false end.
+
+Definition unprovedb (mk : modk) : bool := false.
+(** modifiers whose operands must leave the under stack alone: the checker looks only at the
+    stack part of their stored signatures, or they run the operand repeatedly *)
 Definition ignores_underb (mk : modk) : bool :=
-  match mk with MWith | MOff | MAbove | MBelow | MFork | MBracket | MTry | MDipN _ => true | _ => false end.
+  match mk with
+  | MWith | MOff | MAbove | MBelow | MFork | MBracket | MTry | MDipN _
+  | MReduce | MScan | MFold | MRows | MEach | MInventory | MTable | MTuples | MGroup | MPartition
+  | MSpawn | MPool => true
+  | _ => false end.
+(** modifiers checked in context whose run-time form uses the stored signature: it must be the inferred one *)
+Definition needs_exactb (mk : modk) : bool :=
+  match mk with MBy | MRows | MEach | MInventory => true | _ => false end.
 
 Section Ok.
   Variable asm : list node.
@@ -22,6 +34,7 @@ Section Ok.
     | Mod mk args =>
         negb (unprovedb mk) &&
         (negb (ignores_underb mk) || forallb (fun a : sig * node => Nat.eqb (sua (fst a)) 0 && Nat.eqb (suo (fst a)) 0) args) &&
+        (negb (needs_exactb mk) || forallb (fun a : sig * node => stored_exactb (fst a) (snd a)) args) &&
         forallb (fun a : sig * node => tree_okb (snd a) && stored_okb (fst a) (snd a)) args
     | Call f sg => match nth_error asm f with Some body => stored_okb sg body | None => true end
     | Arr _ inner _ => tree_okb inner
@@ -56,7 +69,9 @@ Fixpoint has_uncovered (n : node) : bool :=
     and the frame theorem holds only vacuously for runs that reach that construct) *)
 Definition mod_modelled (mk : modk) (nargs : nat) : bool :=
   match mk, nargs with
-  | (MDip | MGap | MOn | MBy | MWith | MOff | MAbove | MBelow | MBoth | MCase | MDipN _), 1 => true
+  | (MDip | MGap | MOn | MBy | MWith | MOff | MAbove | MBelow | MBoth | MCase | MDipN _
+     | MReduce | MScan | MFold | MRows | MEach | MInventory | MTable | MTuples | MGroup | MPartition
+     | MSpawn | MPool), 1 => true
   | (MFork | MBracket | MFill | MTry), 2 => true
   | _, _ => false end.
 Fixpoint exec_modelled (n : node) : bool :=
